@@ -366,7 +366,7 @@ def main(tier='quick', seed=0, repo=None):
     probes = c['probes']
     budget_s = float(os.environ.get('VERIF_BUDGET_S', '900' if tier == 'thorough' else '75'))
     if tier == 'quick':
-        n_s1, n_s2, n_s3, s3_slice, instr_frac, sa_frac, max_min = 1600, 800, 16, 260, 0.08, 0.0, 150
+        n_s1, n_s2, n_s3, s3_slice, instr_frac, sa_frac, max_min = 1600, 800, 16, 400, 0.08, 0.0, 150
         fr = 0.62
         sweep = (1, 1, 0.35)
     else:
@@ -417,11 +417,29 @@ def main(tier='quick', seed=0, repo=None):
             s3_all = [op for op in oplist if op['k'] != 'flow']
             if s3_slice:
                 # stratified slice: every family op kind, all malformed/mutation parse ops first (error paths), then the rest
+                # half rejected inputs (error messages are where hash-seed dependence showed), a quarter one op per
+                # stratum (kind x dialect x renderer/catalog x accepted/rejected, and two ops of every family), the rest random
                 errs = [op for op in s3_all if op['k'] == 'parse' and ref[O.op_key(op)]['obs'].startswith('err')]
                 rest = [op for op in s3_all if not (op['k'] == 'parse' and ref[O.op_key(op)]['obs'].startswith('err'))]
                 rng.shuffle(errs)
                 rng.shuffle(rest)
-                s3_all = errs[:s3_slice * 2 // 3] + rest[:s3_slice // 3]
+                strat = []
+                for name in sorted(gen.strata(c, ref)):
+                    lst = gen.strata(c, ref)[name]
+                    strat.append(lst[rng.randrange(len(lst))])
+                for f in sorted(c['families']):
+                    lst = [op for op in c['families'][f] if op['k'] != 'flow']
+                    strat.extend(rng.sample(lst, min(2, len(lst))))
+                rng.shuffle(strat)
+                pick, seen_k = [], set()
+                for op in errs[:s3_slice // 2] + strat[:s3_slice // 2] + rest:
+                    k = O.op_key(op)
+                    if k not in seen_k:
+                        seen_k.add(k)
+                        pick.append(op)
+                    if len(pick) >= s3_slice + s3_slice // 4:
+                        break
+                s3_all = pick
             for h, perm, out in run_s3(s3_seeds, s3_all, ref, repo, seed):
                 s3_runs += 1
                 s3_ops += len(perm)
